@@ -386,6 +386,7 @@ CLASSES = {
     'N7awkward14IndexedArrayOfIlLb1EEE': ('IA', '_ZNK7awkward14IndexedArrayOfIlLb1EE6lengthEv', 'option'),
     'N7awkward14IndexedArrayOfIlLb0EEE': ('IA', '_ZNK7awkward14IndexedArrayOfIlLb0EE6lengthEv', 'indexed'),
     'N7awkward13UnmaskedArrayE': ('UMA', '_ZNK7awkward13UnmaskedArray6lengthEv', 'unmasked'),
+    'N7awkward15ByteMaskedArrayE': ('BMA', '_ZNK7awkward15ByteMaskedArray6lengthEv', 'bytemasked'),
 }
 
 
@@ -420,6 +421,8 @@ def decode(nc, mem, p):
                     content=decode(nc, mem, cell(fo[3])))
     if kind == 'unmasked':
         return dict(cls=kind, content=decode(nc, mem, cell(fo[1])))
+    if kind == 'bytemasked':
+        return dict(cls=kind, mask=nc.index_terms(mem, Ptr(q.obj, q.off + fo[1]), 'mask')[0], content=decode(nc, mem, cell(fo[2])), valid_when=cell(fo[3]))
     if kind in ('option', 'indexed'):
         return dict(cls=kind, index=nc.index_terms(mem, Ptr(q.obj, q.off + fo[1]), 'index')[0], content=decode(nc, mem, cell(fo[2])))
     raise Unsupported(kind)
@@ -496,6 +499,8 @@ def length_of(d):
         return len(d['starts'])
     if d['cls'] == 'unmasked':
         return length_of(d['content'])
+    if d['cls'] == 'bytemasked':
+        return len(d['mask'])
     return len(d['index'])
 
 
@@ -513,6 +518,10 @@ def at(d, k):
     if c == 'unmasked':
         return at(d['content'], k)
     kk = concrete(k, 'position in a list/index node')
+    if c == 'bytemasked':
+        vw = d['valid_when']
+        vw = vw if vw.size() == 8 else z3.ZeroExt(8 - vw.size(), vw)
+        return _mask(at(d['content'], BV(kk)), (z3.Extract(7, 0, d['mask'][kk]) != 0) != (vw != 0))
     if c == 'listoffset':
         a, b = d['offsets'][kk], d['offsets'][kk + 1]
         return [at(d['content'], z3.simplify(a + j)) for j in range(concrete(b - a, 'list length'))]
